@@ -348,6 +348,62 @@ def rule_f5(chk: Check, ir, ix: Index, F):
         raise AnalysisError("F7: the branch that enters ModeInColon was not found")
 
 
+def rule_f8(chk: Check, ix: Index, ir):
+    """F8: the mode stack is a stack — every read of an entry of `end_progs` reads the innermost one (index -1); with nested
+    strings (an f-string inside a replacement field of another) any other index answers for the wrong string.
+    F4-field-expression: what stands between `{` and the conversion/spec admits everything CPython admits there:
+    a yield expression or star_expressions."""
+    n = 0
+    for q, f in sorted(ix.funcs.items()):
+        if f.rel != repo.TOKENIZE:
+            continue
+        for x in own_nodes(f.node):
+            if isinstance(x, ast.Subscript) and isinstance(x.value, ast.Attribute) and x.value.attr == "end_progs":
+                n += 1
+                chk.count("F8-top-of-stack")
+                idx = norm_stmt(x.slice)
+                chk.require(idx == "-1", "F8-top-of-stack", f"{f.qual}:{norm_stmt(x)}", f"{f.rel}:{x.lineno}",
+                            f"`{norm_stmt(x)}` reads entry {idx} of the mode stack; only the innermost open string (index -1) describes "
+                            f"the text being scanned")
+    if n == 0:
+        raise AnalysisError("F8: no read of the mode stack found")
+    r = ir.rules.get("fstring_replacement_field")
+    if r is None:
+        raise AnalysisError("rule fstring_replacement_field vanished")
+
+    def refs(item, seen):
+        from ..ir import Group, Ref
+        if isinstance(item, Ref):
+            if item.name in seen or item.name not in ir.rules:
+                return {item.name}
+            rr = ir.rules[item.name]
+            real = [a for a in rr.alts if not a.invalid_guard]
+            # an alias rule: every alternative is a single reference
+            if real and all(len(a.items) == 1 and isinstance(a.items[0].item, Ref) for a in real):
+                out = {item.name}
+                for a in real:
+                    out |= refs(a.items[0].item, seen | {item.name})
+                return out
+            return {item.name}
+        if isinstance(item, Group):
+            out = set()
+            for a in item.alts:
+                if len(a.items) == 1:
+                    out |= refs(a.items[0].item, seen)
+            return out
+        return set()
+
+    for i, a in enumerate(r.alts):
+        if a.invalid_guard or not a.items or not (isinstance(a.items[0].item, Lit) and a.items[0].item.value == "{"):
+            continue
+        chk.count("F4-grammar-side")
+        got = refs(a.items[1].item, set()) if len(a.items) > 1 else set()
+        need = {"yield_expr", "star_expressions"}
+        chk.require(need <= got, "F4-grammar-side", f"fstring_replacement_field#alt{i}:field-expression", str(a.pos),
+                    f"the expression of a replacement field is `{a.items[1].item if len(a.items) > 1 else None}`, which does not admit "
+                    f"{sorted(need - got)}: CPython accepts `f'{{yield x}}'` and `f'{{*a, b}}'`")
+
+
 def run(chk: Check):
     chk.explanation = (
         "The f-string scanner is a hand-written mode machine; this check decides its tables and pairing, not agreement with "
@@ -366,11 +422,14 @@ def run(chk: Check):
     rule_f3(chk, ix)
     rule_f4(chk, repo.ir_x(), typed.run())
     rule_f5(chk, repo.ir_x(), ix, F)
+    rule_f8(chk, ix, repo.ir_x())
+    from .c01 import rule_kind_guard
+    rule_kind_guard(chk)
     # f-string tokens are accumulated text (C08 L1/L2) and their trees carry spans (location rules of C01/C04): necessary here too
     from .c08 import rule_l1, rule_l2
     rule_l1(chk, ix)
     rule_l2(chk, ix)
-    typed.run().feed(chk, {"A5-loc-key": "A5-loc-key", "A5-loc-pair": "A5-loc-pair", "S4-location": "S4-location",
+    typed.run().feed(chk, {"A5-loc-key": "A5-loc-key", "A5-loc-pair": "A5-loc-pair", "A5-loc-order": "A5-loc-order", "S4-location": "S4-location",
                            "S1-joinedstr-bytes": "S1-joinedstr-bytes", "S1-field-kind": "S1-field-kind"})
     chk.floor("F1-mode-pattern", 3)
     chk.floor("F2-scan-pattern", 5)
@@ -379,3 +438,4 @@ def run(chk: Check):
     chk.floor("F5-text-decoding", 3)
     chk.floor("F6-debug-text", 1)
     chk.floor("F7-colon-lexemes", 2)
+    chk.floor("F8-top-of-stack", 8)
